@@ -81,9 +81,11 @@ func (node *tagForNode) Execute(ctx *ExecutionContext, writer TemplateWriter) (f
 		}
 		return true
 	}, func() {
-		// Nothing to iterate over (maybe wrong type or no items)
+		// Nothing to iterate over (maybe wrong type or no items): the loop has no
+		// position of its own, forloop in the empty part is the enclosing loop's (the
+		// part runs in a scope of its own, like the body)
 		if node.emptyWrapper != nil {
-			err := node.emptyWrapper.Execute(forCtx, writer)
+			err := node.emptyWrapper.Execute(NewChildExecutionContext(ctx), writer)
 			if err != nil {
 				forError = err
 			}
